@@ -1174,6 +1174,16 @@ class Hyperplane(Subspace):
             # acting on row vectors
             matrix = np.asarray(reflection)
 
+        # c * R is the same isometry as R for every scalar c != 0:
+        # rescale so that the repeated eigenvalue of a reflection is +1
+        # (a reflection has positive trace, its negative a negative one)
+        scale = np.abs(np.linalg.det(matrix)) ** (1. / matrix.shape[-1])
+        if (scale == 0).any():
+            raise GeometryError("Not a reflection matrix")
+        scale = scale * np.where(
+            np.trace(matrix, axis1=-1, axis2=-2) < 0, -1., 1.)
+        matrix = matrix / np.expand_dims(scale, axis=(-1, -2))
+
         # TODO: make this compatible with sage
 
         #numpy's eig expects a matrix operating on the left
